@@ -146,8 +146,8 @@ def _fd_check(h, loss_fn, seed, site, cfg, stats, seq, rtol=1e-4, envelope=None)
     if not bool(torch.isfinite(g).all()) or not bool(torch.isfinite(L)):
         _set_flat(ps, theta0)
         raise Inconclusive("non-finite loss or gradient at the base point")
-    if float(g.abs().max()) > 1e8 * (1.0 + abs(float(L))):
-        # a recurrence that explodes over hundreds of steps (gradient 1e17 on a loss of 1e3): chaotic in the parameters, no
+    if float(g.abs().max()) > 1e4 * (1.0 + abs(float(L))):
+        # a recurrence that explodes over hundreds of steps (gradients of 1e6 ... 1e17 on losses of order 1 ... 1e3): chaotic in the parameters, no
         # difference quotient exists at any usable h - not a generic parameter point
         _set_flat(ps, theta0)
         raise Inconclusive("exploding recurrence: gradient %.1e on a loss of %.1e" % (float(g.abs().max()), float(L)))
